@@ -274,3 +274,34 @@ Proof.
   intros p H. unfold lin_check_prog in H. unfold sub_wf_prog, sub_wf_defs. rewrite forallb_forall in *.
   intros d Hd. eapply lin_check_sub_wf. apply (H d Hd).
 Qed.
+
+(* ---------- the cost model as one proposition (for Props/C19.v) ---------- *)
+Definition cost_model_wf {Code Temp : Type} (B : backend Code Temp) (K : N) : Prop :=
+  1 <= K /\
+  (forall c, len (b_mark B c) <= K) /\ (forall t, len (b_jump B t) <= K) /\
+  (forall l, len (b_jump_label B l) <= K) /\ (forall l, len (b_jump_label_fixed B l) <= K) /\
+  (forall so a b l, len (b_jcc2 B so a b l) <= K) /\ (forall so a l, len (b_jcc1 B so a l) <= K) /\
+  (forall t z, len (b_load_immediate B t z) <= K) /\ (forall t l, len (b_load_label B t l) <= K) /\
+  (forall t z, len (b_add_and_jump B t z) <= K) /\ (forall o a b c, len (b_arith B o a b c) <= K) /\
+  (forall a b, len (b_mov B a b) <= K) /\
+  (forall nl t c, len (b_print B nl t c) <= K * (1 + len c)) /\
+  (forall t lc, len (fst (b_erase B t lc)) <= K) /\ (forall t n lc, len (fst (b_share_n B t n lc)) <= K) /\
+  (forall a r lc code lc', b_store B a r lc = Ok (code, lc') -> len code <= K * (1 + len a)) /\
+  (forall a r lc code lc', b_load B a r lc = Ok (code, lc') -> len code <= K * (1 + len a)) /\
+  (forall re c code, NoDup (ids c) -> NoDup (new_ids_of re) ->
+     code_exchange B (transpose re c) c (map fst re) = Ok code -> len code <= K * (1 + len c + len re)).
+
+Theorem codegen_size_wf_cm : forall {Code Temp : Type} (B : backend Code Temp) (K : N), cost_model_wf B K ->
+  forall types s c lc code lc', sub_wf (ids c) s = true ->
+  code_statement B types s c lc = Ok (code, lc') -> len code <= K * cg_bound s (len c).
+Proof.
+  intros Code Temp B K (H1 & H2 & H3 & H4 & H5 & H6 & H7 & H8 & H9 & H10 & H11 & H12 & H13 & H14 & H15 & H16 & H17 & H18).
+  apply codegen_size_wf; assumption.
+Qed.
+Theorem translate_size_wf_cm : forall {Code Temp : Type} (B : backend Code Temp) (K : N), cost_model_wf B K ->
+  forall types ds lc code lc', sub_wf_defs ds = true ->
+  translate B types ds lc = Ok (code, lc') -> len code <= K * cg_bound_defs ds.
+Proof.
+  intros Code Temp B K (H1 & H2 & H3 & H4 & H5 & H6 & H7 & H8 & H9 & H10 & H11 & H12 & H13 & H14 & H15 & H16 & H17 & H18).
+  apply translate_size_wf; assumption.
+Qed.
